@@ -99,7 +99,18 @@ func c13Lexical(t *rapid.T) *DCase {
 	}
 	ns := n(2, 6, "nstmts")
 	for k := 0; k < ns; k++ {
-		switch n(0, 8, "form") {
+		switch n(0, 9, "form") {
+		case 9:
+			// a quoted literal whose characters spell a number next to the numeric literal with
+			// the same spelling: the one is those characters, the other a number, in either order
+			sp := rapid.SampledFrom(c13NumSpellings).Draw(t, "twinsp")
+			sl, nl := ast.Str(sp), ast.Num(sp)
+			uses := []*ast.Node{ast.Print(ast.Bin("+", sl, ast.Num("1")), ast.Is(sl.Clone(), "string"), ast.Method(sl.Clone(), "length")),
+				ast.Print(ast.Bin("+", nl, ast.Num("1")), ast.Is(nl.Clone(), "number"), ast.Bin("+", ast.Str("<"), nl.Clone()))}
+			if n(0, 1, "twinorder") == 0 {
+				uses[0], uses[1] = uses[1], uses[0]
+			}
+			stmts = append(stmts, uses...)
 		case 0, 1, 2:
 			stmts = append(stmts, ast.Print(arith(2)))
 		case 3:
